@@ -128,12 +128,21 @@ func genSchema() string {
 // verifGenExtra lets property files register further generated Gen/*.v files (file name -> generator) from init().
 var verifGenExtra = map[string]func() string{}
 
-func genMain(_ []string) int {
+// gen [--only a.v,b.v]: Schema.v and all registered files, or Schema.v and the named ones only
+func genMain(args []string) int {
 	fmt.Println("=== FILE Schema.v")
 	fmt.Print(genSchema())
 	extra := make([]string, 0, len(verifGenExtra))
 	for n := range verifGenExtra {
 		extra = append(extra, n)
+	}
+	if len(args) >= 2 && args[0] == "--only" {
+		extra = extra[:0]
+		for _, n := range strings.Split(args[1], ",") {
+			if _, ok := verifGenExtra[n]; ok {
+				extra = append(extra, n)
+			}
+		}
 	}
 	sort.Strings(extra)
 	for _, n := range extra {
